@@ -60,6 +60,26 @@ CONTEXTS = [
     "function f(a,b,o,k,r,q,x,y,z,i,arr){ return (%s).length + 1; }",
     "function f(a,b,o,k,r,q,x,y,z,i,arr){ o[%s] += %s; }",
     "function f(a,b,o,k,r,q,x,y,z,i,arr){ for (x in %s) {} for (;;) { if (%s) break; } }",
+    # less common constructs
+    "class A { [%s]() { return %s; } static [%s] = %s; get [%s]() { return %s; } }",
+    "function f(a,b,o,k,r,q,x,y,z,i,arr){ o = { get g() { return %s; }, set s(v) { x = %s; } }; }",
+    "class A { get g() { return %s; } set s(v) { this.v = %s; } #m() { return %s; } static async *gen() { yield %s; } }",
+    "function f(a,b,o,k,r,q,x,y,z,i,arr){ outer: for (const e of arr) { if (%s) continue outer; y = %s; } }",
+    "function f(a,b,o,k,r,q,x,y,z,i,arr){ for (let j = 0; j < %s; j += %s) { x = j; } for (x = %s, y = %s; ; ) break; }",
+    "const h = async (a,b,o,k,r,q,x,y,z,i,arr) => %s;",
+    "const h = async (a,b,o,k,r,q,x,y,z,i,arr) => { return await %s; };",
+    "function* g(a,b,o,k,r,q,x,y,z,i,arr){ yield* %s; const w = yield %s; }",
+    "function f(a,b,o,k,r,q,x,y,z,i,arr){ const { p = %s, ...rest } = o; [x = %s] = arr; }",
+    "function f(a,b,o,k,r,q,x,y,z,i,arr){ try { x = %s; } catch { y = %s; } }",
+    "function f(a,b,o,k,r,q,x,y,z,i,arr){ return `n${`i${%s}`}o${%s}`; }",
+    "export default class { m(a,b,o,k,r,q,x,y,z,i,arr) { return %s; } }",
+    "function f(a,b,o,k,r,q,x,y,z,i,arr){ return q?.(%s) ?? new.target; }",
+    "function f(a,b,o,k,r,q,x,y,z,i,arr){ do { x = %s; } while (%s); }",
+    "function f(a,b,o,k,r,q,x,y,z,i,arr){ if (a) return %s; else if (b) return %s; else return %s; }",
+    "function f(a,b,o,k,r,q,x,y,z,i,arr){ switch (k) { case 1: { x = %s; break; } case %s: y = %s; default: return %s; } }",
+    "function f(a,b,o,k,r,q,x,y,z,i,arr){ return (x = %s, y = %s, %s); }",
+    "var v = function named(a,b,o,k,r,q,x,y,z,i,arr) { 'use strict'; return %s; }, w = (function () { return %s; })();",
+    "function f(a,b,o,k,r,q,x,y,z,i,arr){ return { [%s]: %s, ...%s }; }",
     # expression-bodied arrow functions whose body is not itself the operation
     "const pick = (k) => table[%s];",
     "const pick = (k) => this.a.b[%s];",
